@@ -139,6 +139,11 @@ impl Ep {
     fn has_variant(self) -> bool {
         !matches!(self, Ep::GwMigrate | Ep::GasMigrate | Ep::OpsMigrate | Ep::ItsMigrate | Ep::TokMigrate)
     }
+    /// applying the same call twice is legal (the second application changes nothing)
+    fn idempotent(self) -> bool {
+        use Ep::*;
+        self.is_transfer().is_some() || matches!(self, TokAddMinter | TokRemoveMinter | GwUpgrade | GasUpgrade | OpsUpgrade | ItsUpgrade | TokUpgrade)
+    }
     fn is_transfer(self) -> Option<Role> {
         use Ep::*;
         match self {
@@ -179,6 +184,10 @@ pub struct Case {
     pub history: Vec<Xfer>,
     pub ep: Ep,
     pub principal: Principal,
+    /// the same change was already applied once (by the rightful holder) before the studied call, so the
+    /// studied call is a no-op state-wise: it must still need the (now current) holder's authorisation
+    #[serde(default)]
+    pub pre_applied: bool,
 }
 
 #[derive(Clone)]
@@ -360,6 +369,20 @@ fn build(case: &Case) -> (Sys<'static>, RoleModel) {
             m.holder.insert(role, to);
         }
     }
+    if case.pre_applied && case.ep.idempotent() {
+        s.env.mock_all_auths();
+        if let Some(role) = case.ep.is_transfer() {
+            // the role already went to the beneficiary; the studied call transfers it to the same address again
+            if transfer_role(&s, role, &s.pool[EXTRA_A]) {
+                let prev = m.holder[&role];
+                m.former.get_mut(&role).unwrap().push(prev);
+                m.holder.insert(role, EXTRA_A);
+            }
+        } else {
+            prepare(&s, case.ep);
+            let _ = call(&s, case.ep, false);
+        }
+    }
     (s, m)
 }
 
@@ -369,7 +392,7 @@ impl Property for C06 {
         "C06"
     }
     fn rule(&self) -> &'static str {
-        "every case = (role-transfer history over the 6 transferable roles of the 5 role-bearing contracts, one of 29 administrative entry points, one of 7 principal classes: current holder, former holder, holder of another role, beneficiary named in the arguments, stranger, nobody, holder-authorised-other-arguments). The full 29x7 matrix with an empty history is enumerated in every run (fixed cases); proptest adds histories of 1-5 transfers (incl. to self, to the other role's holder, and back). Engine: the authorisation trees the call needs are recorded in a twin world with all auths mocked, then replayed in a fresh identical world in which exactly one principal signs the tree recorded for the role holder. Oracle: role model: success iff that principal is the current holder (and signed these exact arguments); refusals must leave the ledger snapshot identical; after an accepted transfer the role query names exactly the successor. non-trivial = principal is not simply the initial holder (principal class != Holder, or history non-empty); distinct by Debug hash"
+        "every case = (role-transfer history over the 6 transferable roles of the 5 role-bearing contracts, one of 29 administrative entry points, one of 7 principal classes: current holder, former holder, holder of another role, beneficiary named in the arguments, stranger, nobody, holder-authorised-other-arguments). The full 29x7 matrix with an empty history is enumerated in every run (fixed cases); for the idempotent entry points (role transfers, add/remove minter, upgrade) also the variant in which the same change was already applied once; proptest adds histories of 1-5 transfers (incl. to self, to the other role's holder, and back). Engine: the authorisation trees the call needs are recorded in a twin world with all auths mocked, then replayed in a fresh identical world in which exactly one principal signs the tree recorded for the role holder. Oracle: role model: success iff that principal is the current holder (and signed these exact arguments); refusals must leave the ledger snapshot identical; after an accepted transfer the role query names exactly the successor. non-trivial = principal is not simply the initial holder (principal class != Holder, or history non-empty); distinct by Debug hash"
     }
     fn fixed_is_exhaustive(&self) -> Option<&'static str> {
         Some("entry-point x principal matrix (29 x 7) with empty role history enumerated completely; histories sampled")
@@ -382,8 +405,9 @@ impl Property for C06 {
             proptest::collection::vec((0u8..7, 0u8..POOL as u8).prop_map(|(role, to)| Xfer { role, to }), 0..6),
             prop::sample::select(EPS.to_vec()),
             prop::sample::select(PRINCIPALS.to_vec()),
+            prop_oneof![3 => Just(false), 1 => Just(true)],
         )
-            .prop_map(|(mut history, ep, principal)| {
+            .prop_map(|(mut history, ep, principal, pre_applied)| {
                 // bias the history toward the studied role
                 let r = ROLES.iter().position(|r| *r == ep.role()).unwrap() as u8;
                 for (i, x) in history.iter_mut().enumerate() {
@@ -391,7 +415,7 @@ impl Property for C06 {
                         x.role = r;
                     }
                 }
-                Case { history, ep, principal }
+                Case { history, ep, principal, pre_applied }
             })
             .boxed()
     }
@@ -399,7 +423,10 @@ impl Property for C06 {
         let mut v = vec![];
         for ep in EPS {
             for p in PRINCIPALS {
-                v.push(Case { history: vec![], ep, principal: p });
+                v.push(Case { history: vec![], ep, principal: p, pre_applied: false });
+                if ep.idempotent() {
+                    v.push(Case { history: vec![], ep, principal: p, pre_applied: true });
+                }
             }
         }
         v
@@ -458,6 +485,10 @@ impl Property for C06 {
         }
         if !case.history.is_empty() {
             cx.label("with_role_history");
+        }
+        if case.pre_applied && ep.idempotent() {
+            cx.label("same_change_already_applied");
+            cx.nontrivial();
         }
         if principal.as_ref() == Some(&holder) && !matches!(case.principal, Principal::Holder | Principal::HolderOtherCall) {
             cx.label("principal_class_coincides_with_holder");
